@@ -234,6 +234,11 @@ Section LogP.
     apply split_join; [discriminate|]. constructor; [|exact Hfree].
     eapply Forall_impl; [|apply dec_digits; exact Hk]. intros x Hx E. subst. contradiction.
   Qed.
+
+  (* defect reproduced by the faithful model: an array with exactly one entry cannot be logged *)
+  Theorem single_entry_refuted sep st tag x fo rest_sigs rest_calls :
+    log_run sep st (((tag, LArr [1] [x] fo) :: rest_sigs) :: rest_calls) = Err TypeError.
+  Proof. reflexivity. Qed.
 End LogP.
 
 (* ---- C order: the multi-indices of a shape are visited with offsets 0, 1, 2, ... ---- *)
